@@ -28,6 +28,13 @@ func execSrt(in string) string {
 		_, _ = psatoken.EncodeClaimsToCBOR(oc)
 		ev3 := &psatoken.Evidence{Claims: oc}
 		_, _ = ev3.Sign(mkSigner("g1"))
+		// the validating encoder and signer too, a few times (pooled or cached buffers get reused)
+		for i := 0; i < 4; i++ {
+			oc2 := parseClaims(func() []string { c := validClaims(1+(k+i)%2, r); return c[:] }())
+			_, _ = psatoken.ValidateAndEncodeClaimsToCBOR(oc2)
+			_, _ = psatoken.ValidateAndEncodeClaimsToJSON(oc2)
+			_, _ = (&psatoken.Evidence{Claims: oc2}).ValidateAndSign(mkSigner("g2"))
+		}
 	}
 	parts := splitSign1(tok)
 	// protected header: a byte string; unprotected: the empty map; payload: a byte string
